@@ -238,6 +238,42 @@ theorem C10_column_slice_len (n t : String) (a b : Int) (ha : 0 ≤ a) (hab : a 
   rw [h1, h2]
   omega
 
+/-! ### several cursors on one connection -/
+
+theorem run_fst_cons (c : Cursor) (op : CursorOp) (ops : List CursorOp) : (c.run (op :: ops)).1 = ((c.step op).1.run ops).1 := rfl
+
+/-- **Frame**: whatever is called on the other cursors of the connection, and in whatever
+    interleaving, cursor `j` ends in the state its own calls alone lead to (hence delivers the
+    same rows): cursors created before or after others do not influence each other. -/
+theorem C10_frame (ops : List (Nat × CursorOp)) (cs : List Cursor) (j : Nat) (c : Cursor) (hj : cs[j]? = some c) :
+    (runMulti cs ops)[j]? = some (c.run ((ops.filter (fun p => p.1 == j)).map (·.2))).1 := by
+  induction ops generalizing cs c with
+  | nil => simpa [runMulti, Cursor.run] using hj
+  | cons p rest ih =>
+    obtain ⟨i, op⟩ := p
+    simp only [runMulti, List.filter_cons]
+    by_cases hij : i = j
+    · subst hij
+      have : (stepAt cs i op)[i]? = some (c.step op).1 := by
+        have hlt : i < cs.length := by
+          rcases Nat.lt_or_ge i cs.length with h | h
+          · exact h
+          · rw [List.getElem?_eq_none h] at hj; cases hj
+        have hc : cs[i] = c := by
+          have := List.getElem?_eq_getElem hlt
+          rw [this] at hj; exact Option.some.inj hj
+        simp [stepAt, hlt, hc]
+      rw [ih _ _ this]
+      simp [run_fst_cons]
+    · have : (stepAt cs i op)[j]? = some c := by
+        unfold stepAt
+        cases hci : cs[i]? with
+        | none => simpa using hj
+        | some ci => simp only []; rw [List.getElem?_set_ne hij]; exact hj
+      rw [ih _ _ this]
+      have hne : (i == j) = false := by simpa using hij
+      simp [hne]
+
 /-! ### non-vacuity -/
 example : Inv [[.int 1], [.int 2], [.int 3]] (({} : Cursor).step (.execute [("x", "int")] [[.int 1], [.int 2], [.int 3]])).1 :=
   execute_inv _ _ _
